@@ -227,9 +227,13 @@ func c10Searches(tier string) []named {
 	init := []Letter{l1[0], l1[1], l1[2], l1[3], l1[6], l1[4], l1[5]} // open, params, election, nh1, nh2, nhg1, v4
 	ls2 := c10Letters(2, tier == "thorough")
 	o2 := &Options{Letters: ls2, Sessions: 2, Checks: Checks{Disconnect: true}, Init: init}
+	// ... and with entries in BOTH network instances (a Get over all instances walks them one after the other)
+	both := Letter{Name: "s0 ops[ADD v4@V->1@D, ADD v6@V->1@D]", K: kOps, S: 0, Ops: []OpT{{entry("ADD v4@V->1@D"), stOwn}, {entry("ADD v6@V->1@D"), stOwn}}}
+	o3 := &Options{Letters: c10Letters(1, tier == "thorough"), Sessions: 1, Checks: Checks{Disconnect: true}, Init: append(append([]Letter{}, init...), both)}
 	return []named{
 		{fmt.Sprintf("faults/%d-sessions/from-empty", n), o, depth},
 		{"faults/2-sessions/from-chain-installed", o2, depth - 3},
+		{"faults/1-session/from-both-instances-populated", o3, depth - 3},
 	}
 }
 
